@@ -90,7 +90,7 @@ pub open spec fn fatal_error(w: WaitStatus) -> bool { w.1 == 255 && !spec_is_ech
 pub fn waitpidx(wpid: i32, block: bool, Tracked(k): Tracked<&mut Kernel>) -> (ws: WaitStatus)
     // C02 / C06: the foreground wait listens to EVERY child (-1): a stage may have left its process group (setsid, a job-control program),
     // and the events of other jobs' children that arrive meanwhile must be parked, not left unread
-    requires wpid == -1,   //@L C02+C06+C07.wait.listens_to_every_child_not_only_to_the_group
+    requires wpid == -1,   //@L C02+C03+C06+C07.wait.listens_to_every_child_not_only_to_the_group
     ensures ws_valid(ws) || (!block && ws.0 == 0 && ws.1 == 0 && ws.2 == 0),
         final(k).delivered == old(k).delivered.push(ws),
         final(k).reap == old(k).reap && final(k).kill == old(k).kill && final(k).stop == old(k).stop && final(k).cont == old(k).cont,
@@ -403,10 +403,10 @@ wait_fg_job = Fn(J, 'wait_fg_job', ret='r', rewrites=RW,
          'pids@.len() > 0 ==> (final(k).delivered.len() > old(k).delivered.len() && fatal_error(final(k).delivered.last())) '
          '|| r.status as int == last_status(final(k).delivered, old(k).delivered.len() as int, final(k).delivered.len() as int, pids@.last(), 0)'),
         # THE PROPERTY: the wait returns exactly when each member has exited or is stopped (and has not been continued since)
-        ('C02+C06+C07.wait.returns_when_every_member_has_exited_or_is_stopped',
+        ('C02+C03+C06+C07.wait.returns_when_every_member_has_exited_or_is_stopped',
          'pids@.len() > 0 && !(final(k).delivered.len() > old(k).delivered.len() && final(k).delivered.last().1 == 255) ==> '
          'forall|p: i32| pids@.contains(p) ==> #[trigger] settled_at(final(k).delivered, old(k).delivered.len() as int, final(k).delivered.len() as int, p)'),
-        ('C02+C06+C07.wait.returns_only_when_every_stage_reported',
+        ('C02+C03+C06+C07.wait.returns_only_when_every_stage_reported',
          'pids@.len() > 0 && !(final(k).delivered.len() > old(k).delivered.len() && final(k).delivered.last().1 == 255) ==> '
          'forall|p: i32| pids@.contains(p) ==> exists|i: int| ' + NEW_EVENTS.replace('K', 'final(k)') +
          ' && (#[trigger] final(k).delivered[i]).0 == p && 0 <= final(k).delivered[i].1 <= 2'),
@@ -420,12 +420,12 @@ wait_fg_job = Fn(J, 'wait_fg_job', ret='r', rewrites=RW,
          '&& 0 <= k.delivered[i].1 <= 3 && k.delivered[i].0 > 0 ==> kept(*k, k.delivered, i, k.delivered.len() as int)'),
         ('C06+C07.inv.wait.events_valid', 'forall|i: int| ' + NEW_EVENTS.replace('K', 'k') + ' ==> ws_valid(#[trigger] k.delivered[i])'),
     ], invariant_except_break=[
-        ('C02+C06+C07.inv.wait.settled_is_the_set_of_members_that_exited_or_are_stopped',
+        ('C02+C03+C06+C07.inv.wait.settled_is_the_set_of_members_that_exited_or_are_stopped',
          'settled@.finite() && (forall|p: i32| #[trigger] settled@.contains(p) ==> pids@.contains(p) && settled_at(k.delivered, old(k).delivered.len() as int, k.delivered.len() as int, p)) '
          '&& (forall|p: i32| pids@.contains(p) && #[trigger] settled_at(k.delivered, old(k).delivered.len() as int, k.delivered.len() as int, p) ==> settled@.contains(p))'),
         ('C02+C03.inv.wait.status', 'cmd_result.status as int == last_status(k.delivered, old(k).delivered.len() as int, k.delivered.len() as int, pids@.last(), 0)'),
     ], ensures=[
-        ('C02+C06+C07.inv.wait.exit_when_every_member_settled',
+        ('C02+C03+C06+C07.inv.wait.exit_when_every_member_settled',
          '(k.delivered.len() > old(k).delivered.len() && k.delivered.last().1 == 255) '
          '|| forall|p: i32| pids@.contains(p) ==> #[trigger] settled_at(k.delivered, old(k).delivered.len() as int, k.delivered.len() as int, p)'),
         ('C02+C03.inv.wait.exit_status',
